@@ -108,6 +108,19 @@ func genBalCasesWith(c *Ctx, stream string, n int, jo func(r *RNG) JGenOpts, fo 
 		j, tags := GenJournal(r, o)
 		text, _ := j.Text()
 		f := fo(r, j, o.Valuation)
+		if r.Chance(1, 50) {
+			// a very long comment line between two directives (longer than the 64 KiB token limit of a bufio.Scanner, longer
+			// than a pipe buffer): the journal is the same (seeded change C02-e read files line by line and silently stopped
+			// at such a line)
+			if k := strings.Index(text, "\n\n"); k >= 0 {
+				at := k + 2
+				if q := strings.LastIndex(text[:len(text)*r.Range(1, 3)/3], "\n\n"); q >= 0 {
+					at = q + 2
+				}
+				text = text[:at] + "# " + strings.Repeat(Pick(r, []string{"x", "-", "é"}), Pick(r, []int{65536, 70000, 200000})) + "\n\n" + text[at:]
+				tags = append(tags, "long-line")
+			}
+		}
 		cases = append(cases, &balCase{Idx: i, J: j, Text: text, F: f, Tags: tags})
 	}
 	parallelFor(len(cases), 16, func(k int) {
